@@ -252,6 +252,10 @@ func c02cases(quick bool) []*BCase {
 		{"value-chain", Service{Value: P(`"fx/pk".VarVal.F1`)}},
 		{"value-local", Service{Value: P(`".".Var`)}},
 		{"value-typed", Service{Value: P("&pk.Obj{}"), Type: P("*pk.Obj")}},
+		{"value-varval-zero-fields", Service{Value: P("pk.VarVal"), Fields: []KV{{"F1", nil}, {"F2", 0}}}},
+		{"value-varval-false-empty-fields", Service{Value: P("pk2.VarVal"), Fields: []KV{{"F1", false}, {"F2", ""}, {"f3", 0.0}}}},
+		{"value-struct-zero-fields", Service{Value: P("pk.Obj{}"), Fields: []KV{{"F1", nil}, {"F2", false}}}},
+		{"type-zero-fields", Service{Type: P("pk.Val"), Fields: []KV{{"F1", 0}, {"F2", nil}}}},
 		{"value-addr-varval", Service{Value: P("&pk.VarVal")}},
 		{"value-addr-local-varval", Service{Value: P(`&".".VarVal`)}},
 		{"value-ptr-valstruct", Service{Value: P(`&"fx/pk2".Val{}`), Fields: []KV{{"F1", "x"}}}},
@@ -345,6 +349,23 @@ func init() {
 		Prepare: PrepareUniverse,
 		Run: func(w *W) {
 			cases := c02cases(w.Env.Quick())
+			// what is declared means the same however the YAML presents it (aliased argument lists, merged call / tag objects)
+			for _, bc := range cases {
+				bc := bc
+				if bc.Files != nil || bc.Local || !(strings.HasPrefix(bc.ID, "lookalike") || strings.HasPrefix(bc.ID, "calls/pk.New/") && len(bc.ID) > len("calls/pk.New/")+4 || strings.HasPrefix(bc.ID, "pos=wither/form=multi") || strings.HasPrefix(bc.ID, "error/")) {
+					continue
+				}
+				w.Case("yaml-presentation/"+bc.ID, func(c *C) {
+					cfg := *bc.Cfg
+					if cfg.Meta.Pkg == nil {
+						m := *cfg.Meta
+						m.Pkg = P("gen")
+						cfg.Meta = &m
+					}
+					c.Distinct("all", c.ID)
+					w.ShapeInvarianceOK(c, bc.ID, []File{{"c.yaml", cfg.YAML()}}, true)
+				})
+			}
 			runBatches(w, "c02", cases, 48, behaviourOracle)
 		},
 	})
